@@ -50,6 +50,7 @@ class Ctx:
         self.pending = []
         self.pc = []
         self.solver = z3.Solver()
+        self.light = z3.Solver()
         self.quick_ms = quick_ms
         self.feas_ms = feas_ms
         self.obligations = []
@@ -65,6 +66,8 @@ class Ctx:
         self.solver_secs = 0.0
         self.reach = {}           # label -> bool (vacuity guards)
         self.dead = False
+        self.known = {}
+        self.len_syms = []        # [name, [SL objects], resolved]
 
     # ---- symbols
     def fresh(self, base, sort=None):
@@ -91,6 +94,48 @@ class Ctx:
             raise PathEnd()
         self.pc.append(b)
         self.solver.add(b)
+        if self._is_linear(b):
+            self.light.add(b)
+        if self.len_syms:
+            self._concretize_lengths(b)
+
+    def _occurs(self, t, names):
+        seen = set()
+        stack = [t]
+        while stack:
+            x = stack.pop()
+            i = x.get_id()
+            if i in seen:
+                continue
+            seen.add(i)
+            if z3.is_const(x) and x.decl().kind() == z3.Z3_OP_UNINTERPRETED and x.decl().name() in names:
+                return True
+            if z3.is_quantifier(x):
+                stack.append(x.body())
+            else:
+                stack.extend(x.children())
+        return False
+
+    def _concretize_lengths(self, b):
+        """when the path condition pins the length of an input byte string to a constant,
+        make the representation concrete-length (sound: pc |= len == c is checked)"""
+        names = {n for n, _, done in self.len_syms if not done}
+        if not names or not self._occurs(b, names):
+            return
+        for entry in self.len_syms:
+            sym, sls, done = entry
+            if done:
+                continue
+            self.solver.set("timeout", 300)
+            if self.solver.check() != z3.sat:
+                return
+            v = self.solver.model().eval(z3.Int(sym), model_completion=True)
+            if not z3.is_int_value(v):
+                continue
+            if self.check(z3.Int(sym) != v, 300) == z3.unsat:
+                for sl in sls:
+                    sl.hi = z3.simplify(sl.lo + v)
+                entry[2] = True
 
     def fact(self, b):
         """a definitional fact (always true): same as assume, never ends a path"""
@@ -99,6 +144,41 @@ class Ctx:
             return
         self.pc.append(b)
         self.solver.add(b)
+        if self._is_linear(b):
+            self.light.add(b)
+
+    def _is_linear(self, t):
+        """no product / quotient of two non-constant terms, no quantifier, no uninterpreted
+        function: such facts go to the light solver as well (decidable, fast)"""
+        seen = set()
+        stack = [t]
+        n = 0
+        while stack:
+            x = stack.pop()
+            i = x.get_id()
+            if i in seen:
+                continue
+            seen.add(i)
+            n += 1
+            if n > 4000:
+                return False
+            if z3.is_quantifier(x):
+                return False
+            if z3.is_app(x):
+                k = x.decl().kind()
+                ch = x.children()
+                if k == z3.Z3_OP_MUL:
+                    if sum(0 if z3.is_int_value(c) else 1 for c in ch) > 1:
+                        return False
+                elif k in (z3.Z3_OP_IDIV, z3.Z3_OP_MOD, z3.Z3_OP_DIV, z3.Z3_OP_REM):
+                    if not z3.is_int_value(ch[1]):
+                        return False
+                elif k == z3.Z3_OP_UNINTERPRETED and ch:
+                    return False
+                elif k in (z3.Z3_OP_BV2INT, z3.Z3_OP_INT2BV) or z3.is_bv(x):
+                    return False
+                stack.extend(ch)
+        return True
 
     def check(self, extra=None, ms=None):
         t0 = time.time()
@@ -129,6 +209,13 @@ class Ctx:
             return True
         if z3.is_false(b):
             return False
+        self.light.set("timeout", ms or self.quick_ms)
+        self.light.push()
+        self.light.add(z3.Not(b))
+        r = self.light.check()
+        self.light.pop()
+        if r == z3.unsat:
+            return True
         return self.check(z3.Not(b), ms or self.quick_ms) == z3.unsat
 
     def branch(self, c):
@@ -140,6 +227,9 @@ class Ctx:
             return True
         if z3.is_false(c):
             return False
+        k = self.known.get(c.get_id())
+        if k is not None:
+            return k
         if self.speculating:
             raise NeedFork()
         i = len(self.taken)
@@ -158,8 +248,51 @@ class Ctx:
             else:
                 raise PathEnd()
         self.taken.append(d)
+        self.keep.append(c)
+        self.known[c.get_id()] = d
+        nc = z3.simplify(z3.Not(c))
+        self.keep.append(nc)
+        self.known[nc.get_id()] = not d
         self.assume(c if d else z3.Not(c))
         return d
+
+    def value_if_determined(self, t):
+        """the integer the path condition pins t to, or None (two solver calls)"""
+        t = z3.simplify(t)
+        if z3.is_int_value(t):
+            return t.as_long()
+        # light solver first (linear facts only: a sound under-approximation of the hypotheses)
+        self.light.set("timeout", self.feas_ms)
+        if self.light.check() == z3.sat:
+            v = self.light.model().eval(t, model_completion=True)
+            if z3.is_int_value(v):
+                self.light.push()
+                self.light.add(t != v)
+                r = self.light.check()
+                self.light.pop()
+                if r == z3.unsat:
+                    return v.as_long()
+        self.solver.set("timeout", self.feas_ms)
+        if self.solver.check() != z3.sat:
+            return None
+        v = self.solver.model().eval(t, model_completion=True)
+        if not z3.is_int_value(v):
+            return None
+        if self.check(t != v, self.feas_ms) == z3.unsat:
+            return v.as_long()
+        return None
+
+    def split_int(self, t, lo, hi):
+        """complete case split of t over lo..hi (the caller has established lo <= t <= hi):
+        returns the concrete value on this path"""
+        t = z3.simplify(t)
+        if z3.is_int_value(t):
+            return t.as_long()
+        for v in range(lo, hi):
+            if self.branch(t == v):
+                return v
+        self.assume(t == hi)
+        return hi
 
     def choose(self, n, label="choice"):
         """non-deterministic choice among n alternatives (all explored)"""
